@@ -226,6 +226,14 @@ func checkC18(c *Ctx) {
 			descr = fmt.Sprintf("%s = %q", f.name, val)
 		}
 		sub := filepath.Join(dir, sanitize(cs.Name))
+		stem := "s"
+		if chance(r, 20) {
+			// characters that mean something in a URL, a pattern or a shell, in the
+			// directory and in the file name: a path is a path
+			sub = filepath.Join(dir, sanitize(cs.Name)+pickStr(r, "#1", "+a b", "%41%2F", "?q=1&r", " (x)", "[*]"))
+			stem = pickStr(r, "s#0", "pod+ctr", "s%41", "s?x", "s 1", "s&t")
+			c.Count("paths_with_url_or_pattern_characters", 1)
+		}
 		must(os.MkdirAll(sub, 0o755))
 		defer os.RemoveAll(sub)
 		cache, _ := cdi.NewCache(cdi.WithSpecDirs(sub), cdi.WithAutoRefresh(false))
@@ -238,7 +246,7 @@ func checkC18(c *Ctx) {
 		}
 		valid := true
 		for _, enc := range []string{"json", "yaml"} {
-			if err := cache.WriteSpec(cloneSpec(s), "s."+enc); err != nil {
+			if err := cache.WriteSpec(cloneSpec(s), stem+"."+enc); err != nil {
 				valid = false
 			}
 		}
@@ -264,7 +272,7 @@ func checkC18(c *Ctx) {
 			return
 		}
 		for _, enc := range []string{"json", "yaml"} {
-			path := filepath.Join(sub, "s."+enc)
+			path := filepath.Join(sub, stem+"."+enc)
 			data, _ := os.ReadFile(path)
 			t := map[string]string{"encoding": enc}
 			for k, v := range tags {
